@@ -407,9 +407,28 @@ func genSys(c *ctx) {
 		if k > 7 {
 			k = 7
 		}
-		// the PXE layout, now and then: server_id first, a few option plugins, nbp (which ends the chain) last
-		pxe := c.rng.Intn(8) == 0
-		if pxe {
+		// usual layouts, now and then. PXE: server_id first, a few option plugins, nbp (which ends the chain) last.
+		// The example configuration (cmds/coredhcp/config.yml.example): lease_time, server_id, dns, router, netmask, range.
+		// Static before dynamic or the other way round: range and file in one chain.
+		layout := c.rng.Intn(10)
+		pxe := layout == 0
+		byName := map[string]plugSpec{}
+		for _, sp := range cands {
+			byName[sp.name] = sp
+		}
+		pickNames := func(names ...string) []plugSpec {
+			var out []plugSpec
+			for _, n := range names {
+				if sp, ok := byName[n]; ok {
+					out = append(out, sp)
+				} else if n == "range" || n == "file" {
+					out = append(out, plugSpec{name: n})
+				}
+			}
+			return out
+		}
+		switch {
+		case pxe:
 			var first, last, mid []plugSpec
 			for _, sp := range cands {
 				switch sp.name {
@@ -427,6 +446,18 @@ func genSys(c *ctx) {
 			}
 			cands = append(append(first, mid...), last...)
 			k = len(cands)
+		case layout == 1 && !v6:
+			cands = pickNames("lease_time", "server_id", "dns", "router", "netmask", "range")
+			k = len(cands)
+			pxe = true // accepted arguments throughout
+		case layout == 2 && !v6:
+			if c.rng.Intn(2) == 0 {
+				cands = pickNames("server_id", "range", "file", "dns")
+			} else {
+				cands = pickNames("file", "range", "router")
+			}
+			k = len(cands)
+			pxe = true
 		}
 		var ownSID net.IP
 		var ownDUID dhcpv6.DUID
